@@ -529,8 +529,14 @@ class SymRatio:
         return self.n >= self._other(o)
 
     def __eq__(self, o):
+        if isinstance(o, (int, float)) and not isinstance(o, bool):
+            # n/c == x for a concrete x: by injectivity only the integer m with m/c == x can match
+            m = round(o * self.c)
+            if m / self.c == o:
+                return self.n == m
+            return False
         if not isinstance(o, SymRatio):
-            return False if not isinstance(o, (int, float, SymInt, SymFloat)) else self._other(o)
+            return False if not isinstance(o, (SymInt, SymFloat)) else self._other(o)
         return self.n == self._other(o)
 
     def __ne__(self, o):
